@@ -138,5 +138,5 @@ class FileSystemLoader(BaseLoader):
         source_path = await loop.run_in_executor(None, self.resolve_path, template_name)
         source, mtime = await loop.run_in_executor(None, self._read, source_path)
         return TemplateSource(
-            source, str(source_path), partial(self._uptodate_async, source_path, mtime)
+            source, str(source_path), partial(self._uptodate, source_path, mtime)
         )
